@@ -202,6 +202,19 @@ let handle kind a =
       let (r, left) = run_hdr_read_to_end prefix cap chunk (mk a.(1) a.(3)) in
       Some (cres_s (fun bs -> "Ok:" ^ hex_of_bytes bs) r
             ^ "|" ^ string_of_int (hexlen a.(1) - int_of_nat left))
+  | "seqr" ->
+      (* data cap script sizes *)
+      let cap = nat_of_int (int_of_string a.(1)) in
+      let (l, left) = run_seq_reads cap (parse_sizes a.(3)) (mk a.(0) a.(2)) in
+      Some (String.concat ";" (List.map (function ROk bs -> hex_of_bytes bs | RInt -> "Int") l)
+            ^ "|" ^ string_of_int (hexlen a.(0) - int_of_nat left))
+  | "seqe" ->
+      (* data cap script chunk *)
+      let cap = nat_of_int (int_of_string a.(1)) in
+      let chunk = nat_of_int (int_of_string a.(3)) in
+      let (r, left) = run_seq_read_to_end cap chunk (mk a.(0) a.(2)) in
+      Some (cres_s (fun bs -> "Ok:" ^ hex_of_bytes bs) r
+            ^ "|" ^ string_of_int (hexlen a.(0) - int_of_nat left))
   | "cramc" ->
       (* data cap script chunk *)
       let cap = nat_of_int (int_of_string a.(1)) in
